@@ -233,12 +233,9 @@ func play(sc *scenario) []M {
 	go srv.Serve(ln)
 	defer srv.Close()
 	port := ln.Addr().(*net.TCPAddr).Port
-	dead, err := net.Listen("tcp", "127.0.0.1:0")
-	if err != nil {
-		panic(err)
-	}
-	closed := dead.Addr().(*net.TCPAddr).Port
-	dead.Close()
+	// nothing listens on port 1 of the loopback interface: connection refused.  (A port that was free a moment ago
+	// is taken by the receiver of another scenario played at the same time.)
+	closed := 1
 
 	a := &recAIO{rec: rec}
 	cfg := &sender.Config{Size: 10}
